@@ -652,3 +652,203 @@ pub(crate) fn api_evpn_of(v: &Val) -> api::Nlri {
     };
     api::Nlri { nlri: Some(n) }
 }
+
+// ---------------------------------------------------------------- kind 8: API NLRI messages of the other families
+pub(crate) fn fs_rules_of(v: &Val) -> Vec<api::FlowSpecRule> {
+    use api::flow_spec_rule::Rule as R;
+    v.list()
+        .iter()
+        .map(|r| {
+            let l = r.list();
+            let rule = match l[0].int() {
+                0 => None,
+                1 => Some(R::IpPrefix(api::FlowSpecIpPrefix {
+                    r#type: l[1].u32(),
+                    prefix_len: l[2].u32(),
+                    prefix: s_of(&l[3]),
+                    offset: l[4].u32(),
+                })),
+                2 => Some(R::Component(api::FlowSpecComponent {
+                    r#type: l[1].u32(),
+                    items: l[2]
+                        .list()
+                        .iter()
+                        .map(|x| api::FlowSpecComponentItem { op: x.at(0).u32(), value: x.at(1).u64() })
+                        .collect(),
+                })),
+                _ => Some(R::Mac(api::FlowSpecMac { r#type: 1, address: "0:1:2:3:4:5".to_string() })),
+            };
+            api::FlowSpecRule { rule }
+        })
+        .collect()
+}
+
+pub(crate) fn fs_rules_val(rules: &[api::FlowSpecRule]) -> Val {
+    use api::flow_spec_rule::Rule as R;
+    Val::L(
+        rules
+            .iter()
+            .map(|r| match &r.rule {
+                None => Val::L(vec![i(0)]),
+                Some(R::IpPrefix(p)) => Val::L(vec![
+                    i(1),
+                    Val::n(p.r#type),
+                    Val::n(p.prefix_len),
+                    s_val(&p.prefix),
+                    Val::n(p.offset),
+                ]),
+                Some(R::Component(c)) => Val::L(vec![
+                    i(2),
+                    Val::n(c.r#type),
+                    Val::L(c.items.iter().map(|x| Val::L(vec![Val::n(x.op), Val::n(x.value)])).collect()),
+                ]),
+                Some(R::Mac(_)) => Val::L(vec![i(3)]),
+            })
+            .collect(),
+    )
+}
+
+pub(crate) fn api_rt_of(v: &Val) -> Option<api::RouteTarget> {
+    use api::route_target::Rt;
+    let l = v.list();
+    if l.is_empty() {
+        return None;
+    }
+    let rt = match l[0].int() {
+        0 => None,
+        1 => Some(Rt::TwoOctetAsSpecific(api::TwoOctetAsSpecificExtended {
+            is_transitive: l[1].bool(),
+            sub_type: l[2].u32(),
+            asn: l[3].u32(),
+            local_admin: l[4].u32(),
+        })),
+        2 => Some(Rt::Ipv4AddressSpecific(api::IPv4AddressSpecificExtended {
+            is_transitive: l[1].bool(),
+            sub_type: l[2].u32(),
+            address: s_of(&l[3]),
+            local_admin: l[4].u32(),
+        })),
+        _ => Some(Rt::FourOctetAsSpecific(api::FourOctetAsSpecificExtended {
+            is_transitive: l[1].bool(),
+            sub_type: l[2].u32(),
+            asn: l[3].u32(),
+            local_admin: l[4].u32(),
+        })),
+    };
+    Some(api::RouteTarget { rt })
+}
+
+pub(crate) fn api_rt_val(rt: &Option<api::RouteTarget>) -> Val {
+    use api::route_target::Rt;
+    match rt {
+        None => Val::L(vec![]),
+        Some(r) => match &r.rt {
+            None => Val::L(vec![i(0)]),
+            Some(Rt::TwoOctetAsSpecific(t)) => Val::L(vec![
+                i(1),
+                Val::b(t.is_transitive),
+                Val::n(t.sub_type),
+                Val::n(t.asn),
+                Val::n(t.local_admin),
+            ]),
+            Some(Rt::Ipv4AddressSpecific(t)) => Val::L(vec![
+                i(2),
+                Val::b(t.is_transitive),
+                Val::n(t.sub_type),
+                s_val(&t.address),
+                Val::n(t.local_admin),
+            ]),
+            Some(Rt::FourOctetAsSpecific(t)) => Val::L(vec![
+                i(3),
+                Val::b(t.is_transitive),
+                Val::n(t.sub_type),
+                Val::n(t.asn),
+                Val::n(t.local_admin),
+            ]),
+        },
+    }
+}
+
+// [10, rules] FlowSpec | [11, rd, rules] VpnFlowSpec | [12, length, distinguisher, color, endpoint bytes] SrPolicy
+// | [13, asn, rt] RouteTargetMembership | [14, rd, prefix] MUP ISD | [15, rd, address] MUP DSD
+// | [16, rd, prefix, teid, qfi, ea_len, endpoint, sa_len, source] MUP T1ST | [17, rd, ea_len, endpoint, teid] MUP T2ST
+#[allow(deprecated)]
+pub(crate) fn api_xnlri_of(v: &Val) -> api::Nlri {
+    use api::nlri::Nlri as N;
+    let l = v.list();
+    let n = match l[0].int() {
+        10 => N::FlowSpec(api::FlowSpecNlri { rules: fs_rules_of(&l[1]) }),
+        11 => N::VpnFlowSpec(api::VpnFlowSpecNlri { rd: api_rd_of(&l[1]), rules: fs_rules_of(&l[2]) }),
+        12 => N::SrPolicy(api::SrPolicyNlri {
+            length: l[1].u32(),
+            distinguisher: l[2].u32(),
+            color: l[3].u32(),
+            endpoint: l[4].bytes(),
+        }),
+        13 => N::RouteTargetMembership(api::RouteTargetMembershipNlri { asn: l[1].u32(), rt: api_rt_of(&l[2]) }),
+        14 => N::MupInterworkSegmentDiscovery(api::MupInterworkSegmentDiscoveryRoute {
+            rd: api_rd_of(&l[1]),
+            prefix: s_of(&l[2]),
+        }),
+        15 => N::MupDirectSegmentDiscovery(api::MupDirectSegmentDiscoveryRoute {
+            rd: api_rd_of(&l[1]),
+            address: s_of(&l[2]),
+        }),
+        16 => N::MupType1SessionTransformed(api::MupType1SessionTransformedRoute {
+            rd: api_rd_of(&l[1]),
+            prefix_length: 0,
+            prefix: s_of(&l[2]),
+            teid: l[3].u32(),
+            qfi: l[4].u32(),
+            endpoint_address_length: l[5].u32(),
+            endpoint_address: s_of(&l[6]),
+            source_address_length: l[7].u32(),
+            source_address: s_of(&l[8]),
+        }),
+        _ => N::MupType2SessionTransformed(api::MupType2SessionTransformedRoute {
+            rd: api_rd_of(&l[1]),
+            endpoint_address_length: l[2].u32(),
+            endpoint_address: s_of(&l[3]),
+            teid: l[4].u32(),
+        }),
+    };
+    api::Nlri { nlri: Some(n) }
+}
+
+#[allow(deprecated)]
+pub(crate) fn api_xnlri_val(n: &api::Nlri) -> Val {
+    use api::nlri::Nlri as N;
+    match &n.nlri {
+        Some(N::FlowSpec(f)) => Val::L(vec![i(10), fs_rules_val(&f.rules)]),
+        Some(N::VpnFlowSpec(f)) => Val::L(vec![i(11), api_rd_val(&f.rd), fs_rules_val(&f.rules)]),
+        Some(N::SrPolicy(s)) => Val::L(vec![
+            i(12),
+            Val::n(s.length),
+            Val::n(s.distinguisher),
+            Val::n(s.color),
+            Val::from_bytes(&s.endpoint),
+        ]),
+        Some(N::RouteTargetMembership(r)) => Val::L(vec![i(13), Val::n(r.asn), api_rt_val(&r.rt)]),
+        Some(N::MupInterworkSegmentDiscovery(r)) => Val::L(vec![i(14), api_rd_val(&r.rd), s_val(&r.prefix)]),
+        Some(N::MupDirectSegmentDiscovery(r)) => Val::L(vec![i(15), api_rd_val(&r.rd), s_val(&r.address)]),
+        Some(N::MupType1SessionTransformed(r)) => Val::L(vec![
+            i(16),
+            api_rd_val(&r.rd),
+            s_val(&r.prefix),
+            Val::n(r.teid),
+            Val::n(r.qfi),
+            Val::n(r.endpoint_address_length),
+            s_val(&r.endpoint_address),
+            Val::n(r.source_address_length),
+            s_val(&r.source_address),
+        ]),
+        Some(N::MupType2SessionTransformed(r)) => Val::L(vec![
+            i(17),
+            api_rd_val(&r.rd),
+            Val::n(r.endpoint_address_length),
+            s_val(&r.endpoint_address),
+            Val::n(r.teid),
+        ]),
+        _ => Val::L(vec![i(99)]),
+    }
+}
